@@ -251,11 +251,12 @@ def capa_default_scale_stream(ctx):
     from skchange.anomaly_scores import L2Saving as _L2S
     rng = ctx.rng
     for it in range(ctx.n(2, 10)):
-        n, p = rng.randint(150, 320), rng.choice([1, 3])
+        n, p = (rng.randint(150, 320) if it else rng.randint(540, 620)), rng.choice([1, 3])
         multi = it % 2 == 1
         X = np.asarray([[rng.gauss(0, 1) for _ in range(p)] for _ in range(n)])
-        a = rng.randint(20, n - 80)
-        X[a:a + rng.randint(10, 50), : rng.randint(1, p)] += rng.choice([3.0, -4.0])
+        a = rng.randint(20, n - 150)
+        a = a | 1                                  # an ODD start
+        X[a:a + (rng.randint(10, 50) if it % 2 else rng.randint(80, 140)), : rng.randint(1, p)] += rng.choice([3.0, -4.0])      # also anomalies longer than 64 samples
         X[rng.randrange(n), rng.randrange(p)] += rng.choice([9.0, -11.0])
         d = (_MVCAPA() if multi else _CAPA()).fit(X)
         m, M = d.min_segment_length, d.max_segment_length
@@ -276,6 +277,8 @@ def capa_default_scale_stream(ctx):
                 best = run if best is None or run > best else best
             return best
         sc = _L2S().fit(X)
+        from harness import floatstreams as _fs
+        _fs._scorer_vs_definition(ctx, "MVCAPA" if multi else "CAPA", "l2saving", sc, X, m)
         cuts = [(s, e) for s in range(n) for e in range(s + m, min(n, s + M) + 1)]
         PC = {c_: pbest([float(v) for v in row], float(ac), bc) for c_, row in zip(cuts, sc.evaluate(np.asarray(cuts)))}
         PPv = [pbest([float(v) for v in row], float(ap), bp) for row in sc.evaluate(np.asarray([(t, t + 1) for t in range(n)]))]
